@@ -149,6 +149,10 @@ func renamePtKey(in any, to, from string) error {
 		return fmt.Errorf("key(from) %s not found", from)
 	}
 
+	// the new name replaces whatever key (tag or field) held it before, so
+	// that a key is never both a tag and a field
+	pt.Delete(to)
+
 	switch v.PtFlag { //nolint:exhaustive
 	case input.PtField:
 		if v, ok := pt.Fields[from]; ok {
@@ -161,6 +165,11 @@ func renamePtKey(in any, to, from string) error {
 		}
 		delete(pt.Tags, from)
 	}
+
+	// the key index follows the value: without this the renamed key cannot
+	// be read, dropped or renamed again
+	delete(pt.Meta, from)
+	pt.Meta[to] = v
 	return nil
 }
 
